@@ -14,14 +14,63 @@ ID = 'C07'
 TRANSLATORS = [t1_operators.translate, t4_arith.translate]
 PROPERTY_FILE = 'Properties/C07.v'
 THEOREMS = [
-    'C07_every_generator_only_extends',
+    'C07_every_generator_only_extends', 'C07_extension_meaning', 'C07_adds_meaning', 'C07_basis_sets',
+    'C07_basis_resolution',
+    'C07_cells_exact', 'C07_stockmeyer_block_exact', 'C07_mdfa_exact', 'C07_simplified_mdfa_exact',
+    'C07_sum_n_bits_exact', 'C07_sum_n_bits_xaig_size_upto64', 'C07_sum_n_bits_easy_exact',
+    'C07_sum_pow2_m1_exact', 'C07_bit_counters_return_upto40',
+    'C07_sum_n_weighted_bits_exact', 'C07_sum_n_weighted_bits_naive_exact', 'C07_levels_pairwise_distinct',
+    'C07_weighted_xaig_size_small_vectors', 'C07_weighted_struct_pp_shapes_upto8',
+    'C07_sum_two_numbers_exact', 'C07_sum_two_numbers_with_shift_exact',
+    'C07_generate_sum_n_bits', 'C07_generate_sum_weighted_bits_efficient', 'C07_generate_sum_weighted_bits_naive',
 ]
-PARTIAL = {}
-LEVEL_TEXT = ''
-LEVEL_NOTE = ''
-TECHNIQUE = ''
-TRUSTED = []
-ASSUMPTIONS = []
+PARTIAL = {
+    'C07_sum_n_bits_xaig_size_upto64':
+        'the documented XAIG bound gates <= 4.5 n - 2 m of add_sum_n_bits is established by kernel computation '
+        '(vm_compute on the model run on the bare circuit) for every n <= 64 only; for larger n and for host '
+        'circuits it is checked by the direct oracle on every run, not proved. (The AIG bound 7 n - 3 m and the '
+        'bound 5 n - 3 m of add_sum_n_bits_easy / the naive weighted sum are proved for all n and all hosts.)',
+    'C07_weighted_xaig_size_small_vectors':
+        'the documented XAIG bound gates <= 4.5 n - 2 m of add_sum_n_weighted_bits is established by kernel '
+        'computation for the enumerated family only (all weight vectors of length <= 6 over weights 0..3 and the '
+        'partial-product shapes (n, m) <= 8, bare circuit); not proved for arbitrary weight vectors',
+    'C07_bit_counters_return_upto40':
+        'the all-size theorems are conditional on the model run returning Ok; that the fuel of the modelled while '
+        'loops suffices (no Err OutOfFuel) is computed for n <= 40 (n <= 64 for the XAIG counter), not proved for '
+        'all n; the correspondence check shows Ok wherever the implementation returned',
+    'C07_weighted_struct_pp_shapes_upto8':
+        'as above for the weighted sums: Ok (fuel suffices and the sentinel branch, where Python would `break` '
+        'with a truncated result and the model returns Err, is not taken) is computed for the enumerated family only',
+}
+LEVEL_TEXT = ('every summation generator (add_sum_n_bits in both bases incl. the MDFA/Stockmeyer scheduler, '
+              'add_sum_n_bits_easy, add_sum_pow2_m1, add_sum_n_weighted_bits(_naive), add_sum_two_numbers(_with_shift) '
+              'and the three generate_* wrappers) is proved exact for ALL operand counts / weight vectors / widths / '
+              'shifts, both endiannesses, every host circuit and every choice of operand gates, by loop invariants over '
+              'Sem.Eval of the final circuit; levels of the weighted sums are proved strictly increasing; "only fresh '
+              'gates, old gates keep their function" is proved once for every builder program; the set of gate types '
+              'added is proved to lie in the RESOLVED basis (AIG: AND/OR/GT, XAIG: +XOR) for every spelling of the basis '
+              '(enum member or string in any letter case); gate-count bounds: 7n-3m (AIG) and 5n-3m (easy, naive XAIG) '
+              'proved for all sizes, 4.5n-2m (XAIG scheduler) by kernel computation up to n = 64 / an enumerated family '
+              'of weight vectors; the model is tied to /repo by regenerating the cells (translator T4) and by '
+              'netlist-equality correspondence on every run')
+LEVEL_NOTE = ('Coq kernel + vm_compute; translators T1, T4; correspondence harness (order-preserving label renaming '
+              'new_%032x -> new_%04x); theorems are conditional on the model run returning Ok; the model is of the '
+              'repaired code (fixes/D5, D6, D7); where Python would leave the weighted loop through the sentinel '
+              '`break` with a truncated result the model returns Err; add_sum_pow2_m1: the value clause asks that the '
+              'empty string is not a gate label (filter(None, .) would drop such a label)')
+TECHNIQUE = ('Coq proof: generators as programs of a deep-embedded builder monad over the Circuit model; cells by '
+             'exhaustive case analysis; scheduling loops by invariants "sum of the level lists + 2 * sum of the next '
+             'level + emitted bits = target" with pairs (x, x xor y) counted as x + y; sorted work lists of the weighted '
+             'sums by a level-sortedness invariant; gate-type set and gate count carried as an `adds T c c\' g` '
+             'invariant; basis resolution as a total function on the Python value; bounded structural facts by '
+             'vm_compute; netlist-equality correspondence under vm_compute; direct oracle through '
+             'Circuit.evaluate_full_circuit')
+TRUSTED = ['uuid4 is modelled as a counter with a naming function that is universally quantified in every theorem; '
+           'freshness of each new label is established by the modelled has_gate retry loop, not assumed',
+           'string comparison of labels in the SortedLists is String.compare (code-point order on ASCII labels); the '
+           'harness only uses ASCII labels']
+ASSUMPTIONS = ['the spelling of the input labels built by the generate_* wrappers is supplied by the harness',
+               'weights and shifts are natural numbers; at least one operand per list']
 
 
 def _oracle_worker(blob):
